@@ -21,8 +21,10 @@ from props import producer_c01_lib as CL
 
 MODEL = "producer"
 MODULE = "Model.Producer"
+CMODEL = "producercompose"
+CMODULE = "Model.ProducerCompose"
 THEOREMS = ["C01_at_most_once", "C01_resolved_when_quiescent", "C01_success_truthful", "C01_success_none_truthful",
-            "C01_failure_is_failure"]
+            "C01_failure_is_failure", "C01_limit_resolves"]
 
 
 # ------------------------------------------------------------------ running one case on the implementation
@@ -329,7 +331,7 @@ def nontrivial(case, impl):
 
 def run(ck):
     vlib.import_repo()
-    ck.build([MODEL])
+    ck.build([MODEL, CMODEL])
     ck.props()
     rnd = random.Random(ck.seed)
     thorough = ck.tier == "thorough"
@@ -388,6 +390,26 @@ def run(ck):
                               "first_difference_at": k, "replay_op": "run"}, no_input=True)
         return diffs
 
+    def check_composed(runs, label):
+        """driver 2 histories on the composed model: producer trace AND the cluster's partition logs"""
+        cases = [CL.composed_case(r) for r in runs]
+        impl = [CL.composed_impl(r) for r in runs]
+        diffs, mo = ck.correspond(CMODEL, CMODULE, cases, impl, label, nontrivial=lambda c, o: o[-1] != 0 or len(o) > 8,
+                                  describe=lambda c: {"cfg": c[:6], "line": c[:50]})
+        for r in runs:
+            ck.hist("d2 appends at a leader", len(r.cluster.appends))
+        if diffs and not ck.violations:
+            i = diffs[0]
+            k = PL_first_diff(impl[i], mo[i])
+            ck.violation({"kind": "correspondence broken (composed model: producer trace + partition logs)",
+                          "correspondence": "corr:producercompose:%s" % label, "theorems_no_longer_tied": ["C01_composed_truthful"],
+                          "differing_cases": len(diffs), "of": len(cases), "driver": 2, "cfg": CL.jsonable(runs[i].cfg),
+                          "pyevents": CL.jsonable(runs[i].pyevents), "composed_events": runs[i].cevents,
+                          "impl": impl[i][-200:], "model": mo[i][-200:], "first_difference_at": k,
+                          "cluster_logs": {str(k2): CL.kv_mids(runs[i], v) for k2, v in runs[i].cluster.log.items()},
+                          "replay_op": "run"}, no_input=True)
+        return diffs
+
     # --- 0. probes for the repaired defects of this property (driver 1, directed)
     pr_runs = []
     for fid, what, cfg, evs, good in probes1():
@@ -410,6 +432,7 @@ def run(ck):
                           "theorem": "C01_failure_is_failure / C01_resolved_when_quiescent", "driver": 2, "cfg": CL.jsonable(r.cfg),
                           "pyevents": CL.jsonable(r.pyevents), "model_events": r.events, "impl_trace": r.trace, "replay_op": "run"})
     check_runs([r for _l, r, _e in dres], 2, "driver 2 (real KafkaClient, scripted brokers) directed fault sequences vs Model.Producer.run_case")
+    check_composed([r for _l, r, _e in dres], "driver 2 directed fault sequences + cluster logs vs Model.ProducerCompose.run_case")
 
     # --- 2. driver 1: seeded random interleavings over the whole client contract
     n1 = 1500 * scale
@@ -424,6 +447,7 @@ def run(ck):
         ck.hist("d2 profile " + r.cfg["profile"])
         runs2.append(r)
     check_runs(runs2, 2, "driver 2 (real Producer over real KafkaClient, scripted brokers) vs Model.Producer.run_case")
+    check_composed(runs2, "driver 2 random fault sequences + cluster logs vs Model.ProducerCompose.run_case")
 
     # --- 4. thorough: exhaustive small scope (validation of the tie only) and coqchk
     if thorough:
@@ -444,6 +468,7 @@ def run(ck):
         "request or an outcome; distinct = distinct canonical model case lines.")
     ck.assumptions += [
         "Model/Producer.v (hand-written, owned by the producer group) stands for afkak/producer.py:181-715; the tie is this run's correspondence (driver 1 and driver 2), not a proof",
+        "Model/ProducerCompose.v: broker spec (partition -> log, produce = append, reply = error code or base offset) + the client's aggregation rule (client.py:1334-1362); tied by replaying driver 2 histories (the per-payload fate is read off the client's aggregate and the simulated cluster) and comparing the producer trace and the final partition logs of the simulated cluster; offsets in the model are computed from its own logs",
         "the client contract (Model.Producer.result_ok: one response or one failed payload per payload of the request, no duplicates; none for acks=0) is an ASSUMPTION of the theorems about what KafkaClient.send_produce_request delivers; driver 2 checks it on the real client.py (1232-1362, 862-895, 653-704) for the generated fault sequences; a broker that omits a partition from its response is outside the fault model",
         "message identity: the model carries message ids (send, index); the drivers identify every message on the wire by key and value bytes (gzip wrappers are opened), an unidentifiable message makes the monitor fail",
         "Twisted Deferred / inlineCallbacks / DeferredList / LoopingCall semantics and the reactor are modelled, not verified",
